@@ -194,10 +194,13 @@ Inductive daction :=
 | DReleasePre (n : nat)           (* let the gated PreStart return *)
 | DStop (n : nat)                 (* Kill(name n): Shutdown of whatever instance is registered *)
 | DHoldDW                         (* the death watch stops handling messages *)
-| DReleaseDW.
+| DReleaseDW
+| DCancel (n : nat)               (* cancel the context of the gated winner: its PreStart returns ctx.Err() *)
+| DCallDeadline (n : nat)         (* Spawn(name n) with a short deadline while a gated flight is in progress: gives up *)
+| DSetFail (n : nat).             (* the registry publication of the next flight of name n fails *)
 
-Record dst := Dst { d_s : st; d_held : bool; d_gated : list nat }.
-Definition dinit : dst := Dst init false [].
+Record dst := Dst { d_s : st; d_held : bool; d_gated : list nat; d_fail : list nat }.
+Definition dinit : dst := Dst init false [] [].
 (* [kids]: the names spawned through SpawnChild *)
 
 Definition internal_label (kids : list nat) (d : dst) (n : nat) : option label :=
@@ -206,7 +209,7 @@ Definition internal_label (kids : list nat) (d : dst) (n : nat) : option label :
   | FStart => Some (LLookup n)
   | FMake => if mem n (d_gated d) then None else Some (LCreate n)
   | FCreated _ => Some (LCount n)
-  | FCounted _ => Some (LAdd n (mem n kids))
+  | FCounted _ => if mem n (d_fail d) then Some (LAddFail n) else Some (LAdd n (mem n kids))
   | FNone => None
   end.
 
@@ -218,11 +221,14 @@ Fixpoint first_some {A B} (f : A -> option B) (l : list A) : option B :=
 
 Definition internal_step (kids : list nat) (k : nat) (d : dst) : option dst :=
   match first_some (internal_label kids d) (seq 0 k) with
-  | Some l => match step (d_s d) l with Some s' => Some (Dst s' (d_held d) (d_gated d)) | None => None end
+  | Some l => match step (d_s d) l with
+              | Some s' => Some (Dst s' (d_held d) (d_gated d) (match l with LAddFail n => del n (d_fail d) | _ => d_fail d end))
+              | None => None
+              end
   | None =>
     if d_held d then None
     else match first_some (fun n => match term (d_s d n) with _ :: _ => Some (LReap n) | [] => None end) (seq 0 k) with
-         | Some l => match step (d_s d) l with Some s' => Some (Dst s' (d_held d) (d_gated d)) | None => None end
+         | Some l => match step (d_s d) l with Some s' => Some (Dst s' (d_held d) (d_gated d) (d_fail d)) | None => None end
          | None => None
          end
   end.
@@ -238,26 +244,44 @@ Definition drive1 (d : dst) (a : daction) : option dst :=
   | DCall n g =>
     let winner := match flight (d_s d n) with FNone => true | _ => false end in
     match step (d_s d) (LCall n) with
-    | Some s' => Some (Dst s' (d_held d) (if winner && g && negb (running_registered (d_s d n)) then n :: d_gated d else d_gated d))
+    | Some s' => Some (Dst s' (d_held d) (if winner && g && negb (running_registered (d_s d n)) then n :: d_gated d else d_gated d) (d_fail d))
     | None => None
     end
   | DReleasePre n =>
     if mem n (d_gated d) then
       match step (d_s d) (LCreate n) with
-      | Some s' => Some (Dst s' (d_held d) (del n (d_gated d)))
+      | Some s' => Some (Dst s' (d_held d) (del n (d_gated d)) (d_fail d))
       | None => None
       end
     else None
   | DStop n =>
     match node (d_s d n) with
     | Some q => match step (d_s d) (LStop n q) with
-                | Some s' => Some (Dst s' (d_held d) (d_gated d))
+                | Some s' => Some (Dst s' (d_held d) (d_gated d) (d_fail d))
                 | None => Some d       (* already stopped: Kill finds the node, Shutdown is a no-op *)
                 end
     | None => None                      (* Kill: actor not found *)
     end
-  | DHoldDW => Some (Dst (d_s d) true (d_gated d))
-  | DReleaseDW => Some (Dst (d_s d) false (d_gated d))
+  | DHoldDW => Some (Dst (d_s d) true (d_gated d) (d_fail d))
+  | DReleaseDW => Some (Dst (d_s d) false (d_gated d) (d_fail d))
+  | DCancel n =>
+    if mem n (d_gated d) then
+      match step (d_s d) (LCancel n) with
+      | Some s' => Some (Dst s' (d_held d) (del n (d_gated d)) (d_fail d))
+      | None => None
+      end
+    else None
+  | DCallDeadline n =>
+    if mem n (d_gated d) then
+      match step (d_s d) (LCall n) with
+      | Some s1 => match step s1 (LAbandon n) with
+                   | Some s' => Some (Dst s' (d_held d) (d_gated d) (d_fail d))
+                   | None => None
+                   end
+      | None => None
+      end
+    else None
+  | DSetFail n => Some (Dst (d_s d) (d_held d) (d_gated d) (n :: d_fail d))
   end.
 
 Definition drive (kids : list nat) (k : nat) (d : dst) (a : daction) : dst * nat :=
@@ -276,8 +300,8 @@ Definition sort_nats (l : list nat) : list nat := fold_right ins_sorted [] l.
 Definition observe (k : nat) (d : dst) : list (list nat) :=
   flat_map (fun n => let x := d_s d n in
                      [ [match node x with Some q => S q | None => 0 end; length (runs x)];
-                       sort_nats (map (fun e => res_code (snd e)) (handed x)) ]) (seq 0 k)
-  ++ [ [Z.to_nat (num_actors (d_s d) (seq 0 k))] ].
+                       sort_nats (repeat 0 (gaveup x) ++ map (fun e => res_code (snd e)) (handed x)) ]) (seq 0 k)
+  ++ [ [let z := num_actors (d_s d) (seq 0 k) in if Z.ltb z 0 then 4999 else Z.to_nat z] ].
 
 Fixpoint drive_obs (kids : list nat) (k : nat) (d : dst) (acts : list daction) : list (nat * list (list nat)) :=
   match acts with
